@@ -93,6 +93,30 @@ func (f FileSpec) Content(S int) []byte {
 				b[i] = byte(xs(&s) >> 13)
 			}
 		}
+	case "crctwin":
+		for i := range b {
+			b[i] = byte(xs(&s) >> 7)
+		}
+		// every odd slice is a CRC-32 twin of the slice before it: different bytes, same CRC-32 (needs S >= 8)
+		if S >= 8 {
+			for o := 0; o+2*S <= len(b); o += 2 * S {
+				tw := append([]byte{}, b[o:o+S]...)
+				tw[0] ^= byte(1 + f.Seed%200)
+				tw[S/2] ^= 0x55
+				ForgeCRC(tw, crc32.ChecksumIEEE(b[o:o+S]))
+				copy(b[o+S:], tw)
+			}
+		}
+	case "share16k":
+		// the first 16 KiB depend only on Seed%3 (shared between files), the tail on the whole seed
+		ps := uint64(f.Seed%3) + 1234567
+		for i := range b {
+			if i < 16384 {
+				b[i] = byte(xs(&ps) >> 9)
+			} else {
+				b[i] = byte(xs(&s) >> 7)
+			}
+		}
 	default: // random
 		for i := range b {
 			b[i] = byte(xs(&s) >> 7)
@@ -245,6 +269,7 @@ type Case struct {
 	CorruptVol  int        `json:"corrupt_vol,omitempty"` // 1+index of a recovery file in which one byte is flipped (0 = none)
 	KeepVolsWith []int      `json:"keep_vols_with,omitempty"` // if set: every recovery file that holds none of these exponents is deleted
 	SymlinkVols bool       `json:"symlink_vols,omitempty"`  // the recovery files are moved to a store directory and symlinked back
+	DirName     string     `json:"dir_name,omitempty"`     // name of the directory that holds the set (default "w")
 	RmDirOf     int        `json:"rmdir_of,omitempty"`     // 1+index of a protected file whose sub-directory is removed altogether after the damage (its rewrite must fail)
 	StaleNRec   int        `json:"stale_nrec,omitempty"`   // Create is first run with this many blocks (same set ID), leaving stale, partly overlapping volumes behind
 	SiblingVols bool       `json:"sibling_vols,omitempty"` // recovery files replaced by those of a sibling set with the same set ID (same names, lengths, first 16 KiB; different tails)
@@ -252,6 +277,7 @@ type Case struct {
 
 // Obs is everything observed when running a Case.
 type Obs struct {
+	dirName    string
 	Dir        string
 	Originals  map[string][]byte // protected name -> original content
 	Names      []string          // protected names in generation order
@@ -310,7 +336,11 @@ func BystanderFiles() map[string][]byte {
 func Run(c Case, skipRepair bool) *Obs {
 	o := &Obs{Originals: map[string][]byte{}, Outputs: map[string][]byte{}}
 	o.Dir = run.Scratch("scen")
-	dir := filepath.Join(o.Dir, "w")
+	o.dirName = "w"
+	if c.DirName != "" {
+		o.dirName = c.DirName
+	}
+	dir := filepath.Join(o.Dir, o.dirName)
 	os.MkdirAll(dir, 0o755)
 	for _, f := range c.Files {
 		o.Originals[f.Name] = f.Content(c.Slice)
@@ -530,7 +560,7 @@ func Run(c Case, skipRepair bool) *Obs {
 func (o *Obs) Close() { os.RemoveAll(o.Dir) }
 
 // WorkDir is the directory that holds the set.
-func (o *Obs) WorkDir() string { return filepath.Join(o.Dir, "w") }
+func (o *Obs) WorkDir() string { return filepath.Join(o.Dir, o.dirName) }
 
 // AllOriginal reports whether every protected file in snap equals its original.
 func (o *Obs) AllOriginal(snap fsx.Snap) (bool, string) {
@@ -630,7 +660,7 @@ func GenSize(t *rapid.T, S, maxBytes int) int {
 	return n
 }
 
-var kinds = []string{"random", "random", "random", "alpha", "repeat", "zerotail", "zeroshead", "slicezeros"}
+var kinds = []string{"random", "random", "random", "alpha", "repeat", "zerotail", "zeroshead", "slicezeros", "crctwin"}
 
 // GenFiles draws a file set. maxSlices bounds the total number of slices.
 func GenFiles(t *rapid.T, S, maxFiles, maxBytes, maxSlices int) []FileSpec {
@@ -656,6 +686,15 @@ func GenFiles(t *rapid.T, S, maxFiles, maxBytes, maxSlices int) []FileSpec {
 			if total-ns+(src.Size+S-1)/S <= maxSlices {
 				total += (src.Size+S-1)/S - ns
 				fs.Size, fs.Kind, fs.Seed = src.Size, src.Kind, src.Seed
+				if src.Size > 16384 && rapid.Bool().Draw(t, "share16k") {
+					// same length and same first 16 KiB, different tail (same 16k hash and length, different file)
+					for k := range out {
+						if out[k].Name == src.Name {
+							out[k].Kind = "share16k"
+						}
+					}
+					fs.Kind, fs.Seed = "share16k", src.Seed+3
+				}
 			}
 		}
 		out = append(out, fs)
@@ -776,3 +815,6 @@ func genBoundaryOff(maxLen, S int) *rapid.Generator[int] {
 		return v
 	})
 }
+
+// DirNames are directory names for the set directory, including names that contain the archive extensions.
+var DirNames = []string{"", "", "", "arch.par2.d", "old.parity", "x.par", "my.par2", "set.par2.vol", "d.p01"}
